@@ -7,6 +7,10 @@ MergeOverlapping with its `lastTl` behaviour), `fragment_scorer_simple.go`, `hig
 
 Go `int` is `Int` (no overflow: offsets are far below 2^62), `[]byte` is `List (BitVec 8)` with
 cap = len, a slice expression that Go would reject at run time is `none` (= panic).
+The functions that the proposed repairs touch take a `Variant` (or one of its flags): `pinned` is the tree
+as pinned, the other variants are the same code with the guards of /verif/work/C20/fix-1..3.diff; which
+variant /repo is, is read off the source on every run (`BlugeGen.C20.variant`).
+Specification-side definitions (validity, rune boundaries, stripping the markup, marks) are at the end.
 Core Lean only. -/
 namespace Bluge.Highlight
 
@@ -157,6 +161,26 @@ inductive LocRes where
   | panic
 deriving DecidableEq, Repr
 
+/-- Which of the proposed repairs the modelled tree contains (all `false` = the pinned tree).
+* `sizeGuard`: the four `r == utf8.RuneError` tests of `Fragment` also require `size <= 1` (work/C20/fix-1);
+* `locGuard`: `Fragment` ignores locations with `Start < 0` or `End < Start`, both formatters skip a
+  location with `End < Start` (work/C20/fix-2);
+* `runeCut`: with no location the single fragment is `fragmentSize` runes, not bytes (work/C20/fix-3). -/
+structure Variant where
+  sizeGuard : Bool
+  locGuard : Bool
+  runeCut : Bool
+deriving DecidableEq, Repr
+
+def pinned : Variant := ⟨false, false, false⟩
+def repaired : Variant := ⟨true, true, true⟩
+
+/-- the fragmenter's test after a decode: `r == utf8.RuneError` (pinned) or `r == utf8.RuneError && size <= 1` -/
+def bails (guard : Bool) (rs : Nat × Nat) : Bool := rs.1 == runeError && (!guard || decide (rs.2 ≤ 1))
+
+/-- a location that can index a byte slice at all -/
+def usable (l : TermLocation) : Bool := decide (0 ≤ l.start) && decide (l.start ≤ l.stop)
+
 /-- three-valued loop result -/
 inductive Loop (α : Type) where
   | done (a : α)
@@ -165,25 +189,25 @@ inductive Loop (α : Type) where
 deriving Repr
 
 /-- `for end < len(orig) && used < s.fragmentSize { r, size := utf8.DecodeRune(orig[end:]); if r == utf8.RuneError { continue OUTER }; end += size; used++ }` -/
-def fwd (orig : Bytes) (fsize : Int) : Nat → Int → Int → Loop (Int × Int)
+def fwd (g : Bool) (orig : Bytes) (fsize : Int) : Nat → Int → Int → Loop (Int × Int)
   | 0, e, used => .done (e, used)
   | f + 1, e, used =>
     if e < orig.length ∧ used < fsize then
       if e < 0 then .panic else            -- orig[end:] with a negative end
       let rs := decodeRune (orig.drop e.toNat)
-      if rs.1 = runeError then .bail
-      else fwd orig fsize f (e + rs.2) (used + 1)
+      if bails g rs then .bail
+      else fwd g orig fsize f (e + rs.2) (used + 1)
     else .done (e, used)
 
 /-- `for start > 0 && used < s.fragmentSize { if start > len(orig) { continue OUTER }; r, size := utf8.DecodeLastRune(orig[0:start]); if r == utf8.RuneError { continue OUTER }; if start-size >= maxbegin { start -= size; used++ } else { break } }` -/
-def back (orig : Bytes) (fsize maxbegin : Int) : Nat → Int → Int → Loop (Int × Int)
+def back (g : Bool) (orig : Bytes) (fsize maxbegin : Int) : Nat → Int → Int → Loop (Int × Int)
   | 0, s, used => .done (s, used)
   | f + 1, s, used =>
     if s > 0 ∧ used < fsize then
       if s > orig.length then .bail else
       let rs := decodeLastRune (orig.take s.toNat)
-      if rs.1 = runeError then .bail
-      else if s - rs.2 ≥ maxbegin then back orig fsize maxbegin f (s - rs.2) (used + 1)
+      if bails g rs then .bail
+      else if s - rs.2 ≥ maxbegin then back g orig fsize maxbegin f (s - rs.2) (used + 1)
       else .done (s, used)
     else .done (s, used)
 
@@ -193,24 +217,24 @@ def minEnd (e : Int) : List TermLocation → Int → Int
   | tl :: rest, m => if tl.stop > e then m else minEnd e rest tl.stop
 
 /-- `for offset > 0 { DecodeLastRune(orig[0:start]) …; start -= size; DecodeLastRune(orig[0:end]) …; end -= size; offset-- }` -/
-def shiftLeft (orig : Bytes) : Nat → Int → Int → Loop (Int × Int)
+def shiftLeft (g : Bool) (orig : Bytes) : Nat → Int → Int → Loop (Int × Int)
   | 0, s, e => .done (s, e)
   | k + 1, s, e =>
     if s < 0 ∨ s > orig.length then .panic else      -- orig[0:start]
     let r1 := decodeLastRune (orig.take s.toNat)
-    if r1.1 = runeError then .bail else
+    if bails g r1 then .bail else
     if e < 0 ∨ e > orig.length then .panic else      -- orig[0:end]
     let r2 := decodeLastRune (orig.take e.toNat)
-    if r2.1 = runeError then .bail else
-    shiftLeft orig k (s - r1.2) (e - r2.2)
+    if bails g r2 then .bail else
+    shiftLeft g orig k (s - r1.2) (e - r2.2)
 
 /-- body of the OUTER loop for the location `tl = ot[currTermIndex]`, `tail = ot[currTermIndex:]` -/
-def fragOne (orig : Bytes) (fsize maxbegin : Int) (tl : TermLocation) (tail : List TermLocation) : LocRes :=
-  match fwd orig fsize (orig.length + 1) tl.start 0 with
+def fragOne (g : Bool) (orig : Bytes) (fsize maxbegin : Int) (tl : TermLocation) (tail : List TermLocation) : LocRes :=
+  match fwd g orig fsize (orig.length + 1) tl.start 0 with
   | .panic => .panic
   | .bail => .bail
   | .done (e, used) =>
-    match back orig fsize maxbegin (orig.length + 1) tl.start used with
+    match back g orig fsize maxbegin (orig.length + 1) tl.start used with
     | .panic => .panic
     | .bail => .bail
     | .done (s, _) =>
@@ -225,26 +249,36 @@ def fragOne (orig : Bytes) (fsize maxbegin : Int) (tl : TermLocation) (tail : Li
         | none => .panic                        -- utf8.RuneCount(orig[maxbegin:start])
         | some roomToMoveStart =>
           let room := if roomToMoveStart < roomToMove then roomToMoveStart else roomToMove
-          match shiftLeft orig (room / 2) s e with
+          match shiftLeft g orig (room / 2) s e with
           | .panic => .panic
           | .bail => .bail
           | .done (s', e') => .frag s' e'
 
 /-- the OUTER loop; `maxbegin` is only advanced by a location that produced a fragment -/
-def fragmentLoop (orig : Bytes) (fsize : Int) : List TermLocation → Int → Option (List Fragment)
+def fragmentLoop (g : Bool) (orig : Bytes) (fsize : Int) : List TermLocation → Int → Option (List Fragment)
   | [], _ => some []
   | tl :: rest, maxbegin =>
-    match fragOne orig fsize maxbegin tl (tl :: rest) with
+    match fragOne g orig fsize maxbegin tl (tl :: rest) with
     | .panic => none
-    | .bail => fragmentLoop orig fsize rest maxbegin
-    | .frag s e => (fragmentLoop orig fsize rest tl.stop).map (fun fs => { start := s, stop := e } :: fs)
+    | .bail => fragmentLoop g orig fsize rest maxbegin
+    | .frag s e => (fragmentLoop g orig fsize rest tl.stop).map (fun fs => { start := s, stop := e } :: fs)
+
+/-- repaired no-location branch: `for used := 0; end < len(orig) && used < fragmentSize; used++ { _, size := DecodeRune(orig[end:]); end += size }` -/
+def cutRunes (orig : Bytes) (fsize : Int) : Nat → Int → Int → Int
+  | 0, e, _ => e
+  | f + 1, e, used =>
+    if e < orig.length ∧ used < fsize then
+      cutRunes orig fsize f (e + (decodeRune (orig.drop e.toNat)).2) (used + 1)
+    else e
 
 /-- SimpleFragmenter.Fragment; `none` = panic. With no location: one fragment of `fragmentSize`
 *bytes* from the beginning. -/
-def fragment (orig : Bytes) (fsize : Int) (ot : List TermLocation) : Option (List Fragment) :=
-  match ot with
-  | [] => some [{ start := 0, stop := if fsize > orig.length then orig.length else fsize }]
-  | _ => fragmentLoop orig fsize ot 0
+def fragment (v : Variant) (orig : Bytes) (fsize : Int) (ot : List TermLocation) : Option (List Fragment) :=
+  match (if v.locGuard then ot.filter usable else ot) with
+  | [] =>
+    if v.runeCut then some [{ start := 0, stop := cutRunes orig fsize (orig.length + 1) 0 0 }]
+    else some [{ start := 0, stop := if fsize > orig.length then orig.length else fsize }]
+  | ot' => fragmentLoop v.sizeGuard orig fsize ot' 0
 
 /-! ## fragment_scorer_simple.go -/
 
@@ -352,26 +386,27 @@ def ansiFmt : Fmt := ⟨id, ansiColor, ansiReset⟩
 
 /-- HTMLFragmentFormatter.Format / ANSIFragmentFormatter.Format (the two bodies differ only in
 `esc`, `before`, `after`): the loop over the ordered (merged, possibly nil) locations from `curr` -/
-def formatLoop (fm : Fmt) (orig : Bytes) (fend : Int) : List (Option TermLocation) → Int → Option Bytes
+def formatLoop (fm : Fmt) (lg : Bool) (orig : Bytes) (fend : Int) : List (Option TermLocation) → Int → Option Bytes
   | [], curr => (slice orig curr fend).map fm.esc
-  | none :: rest, curr => formatLoop fm orig fend rest curr
+  | none :: rest, curr => formatLoop fm lg orig fend rest curr
   | some tl :: rest, curr =>
-    if tl.start < curr then formatLoop fm orig fend rest curr
+    if lg && decide (tl.stop < tl.start) then formatLoop fm lg orig fend rest curr   -- repaired trees only
+    else if tl.start < curr then formatLoop fm lg orig fend rest curr
     else if tl.stop > fend then (slice orig curr fend).map fm.esc      -- break
     else
       match slice orig curr tl.start, slice orig tl.start tl.stop with
       | some a, some b =>
-        (formatLoop fm orig fend rest tl.stop).map fun r => fm.esc a ++ fm.before ++ fm.esc b ++ fm.after ++ r
+        (formatLoop fm lg orig fend rest tl.stop).map fun r => fm.esc a ++ fm.before ++ fm.esc b ++ fm.after ++ r
       | _, _ => none
 
-def format (fm : Fmt) (orig : Bytes) (f : Fragment) (tls : List (Option TermLocation)) : Option Bytes :=
-  formatLoop fm orig f.stop tls f.start
+def format (v : Variant) (fm : Fmt) (orig : Bytes) (f : Fragment) (tls : List (Option TermLocation)) : Option Bytes :=
+  formatLoop fm v.locGuard orig f.stop tls f.start
 
 /-! ## BestFragments -/
 
 /-- one formatted fragment with the separators -/
-def render (fm : Fmt) (orig : Bytes) (merged : List (Option TermLocation)) (f : Fragment) : Option Bytes :=
-  (format fm orig f merged).map fun s =>
+def render (v : Variant) (fm : Fmt) (orig : Bytes) (merged : List (Option TermLocation)) (f : Fragment) : Option Bytes :=
+  (format v fm orig f merged).map fun s =>
     (if f.start ≠ 0 then separator else []) ++ s ++ (if f.stop ≠ orig.length then separator else [])
 
 def mapM' {α β : Type} (g : α → Option β) : List α → Option (List β)
@@ -381,15 +416,15 @@ def mapM' {α β : Type} (g : α → Option β) : List α → Option (List β)
     | _, _ => none
 
 /-- the fragments BestFragments selects (scored), before formatting -/
-def bestSelection (orig : Bytes) (fsize num : Int) (locs : List TermLocation) : Option (List Fragment) :=
-  (fragment orig fsize (orderTermLocations locs)).map fun frags =>
+def bestSelection (v : Variant) (orig : Bytes) (fsize num : Int) (locs : List TermLocation) : Option (List Fragment) :=
+  (fragment v orig fsize (orderTermLocations locs)).map fun frags =>
     selectBest num (frags.map fun f => { f with score := scoreOf locs f })
 
 /-- SimpleHighlighter.BestFragments(tlm, orig, num); `locs` = the map's locations -/
-def bestFragments (fm : Fmt) (orig : Bytes) (fsize num : Int) (locs : List TermLocation) : Option (List Bytes) :=
-  match bestSelection orig fsize num locs with
+def bestFragments (v : Variant) (fm : Fmt) (orig : Bytes) (fsize num : Int) (locs : List TermLocation) : Option (List Bytes) :=
+  match bestSelection v orig fsize num locs with
   | none => none
-  | some best => mapM' (render fm orig (mergeOverlapping (orderTermLocations locs))) best
+  | some best => mapM' (render v fm orig (mergeOverlapping (orderTermLocations locs))) best
 
 /-! ## specification side: validity, rune boundaries, stripping the markup -/
 
@@ -427,6 +462,12 @@ def sortedByStart : List TermLocation → Bool
 def locOK (orig : Bytes) (l : TermLocation) : Bool :=
   0 ≤ l.start && l.start ≤ l.stop && l.stop ≤ orig.length && isBoundary orig l.start && isBoundary orig l.stop
 
+/-- the location lies in the text and is at most `fsize` runes long -/
+def fits (orig : Bytes) (fsize : Int) (l : TermLocation) : Bool :=
+  match slice orig l.start l.stop with
+  | some s => (runeCount s : Int) ≤ fsize
+  | none => false
+
 /-- the hypothesis of the faithfulness theorems: what a search with the bundled analyzers produces -/
 def locsOK (orig : Bytes) (locs : List TermLocation) : Bool :=
   validUtf8 orig && sortedByStart locs && locs.all (locOK orig)
@@ -461,14 +502,30 @@ def stripAnsiAux : Nat → Bytes → Bytes
 def stripAnsi (s : Bytes) : Bytes := stripAnsiAux 0 s
 
 /-- the marked spans of a formatter run, as byte offsets into `orig` (mirror of `formatLoop`) -/
-def marksLoop (fend : Int) : List (Option TermLocation) → Int → List (Int × Int)
+def marksLoop (lg : Bool) (fend : Int) : List (Option TermLocation) → Int → List (Int × Int)
   | [], _ => []
-  | none :: rest, curr => marksLoop fend rest curr
+  | none :: rest, curr => marksLoop lg fend rest curr
   | some tl :: rest, curr =>
-    if tl.start < curr then marksLoop fend rest curr
+    if lg && decide (tl.stop < tl.start) then marksLoop lg fend rest curr
+    else if tl.start < curr then marksLoop lg fend rest curr
     else if tl.stop > fend then []
-    else (tl.start, tl.stop) :: marksLoop fend rest tl.stop
+    else (tl.start, tl.stop) :: marksLoop lg fend rest tl.stop
 
-def marks (f : Fragment) (tls : List (Option TermLocation)) : List (Int × Int) := marksLoop f.stop tls f.start
+def marks (v : Variant) (f : Fragment) (tls : List (Option TermLocation)) : List (Int × Int) :=
+  marksLoop v.locGuard f.stop tls f.start
+
+/-- the output of a formatter run described by its marked spans: text, mark, text, mark, …, text -/
+def renderMarks (fm : Fmt) (orig : Bytes) (fend : Int) : List (Int × Int) → Int → Option Bytes
+  | [], curr => (slice orig curr fend).map fm.esc
+  | (a, b) :: rest, curr =>
+    match slice orig curr a, slice orig a b with
+    | some x, some y => (renderMarks fm orig fend rest b).map fun r => fm.esc x ++ fm.before ++ fm.esc y ++ fm.after ++ r
+    | _, _ => none
+
+/-- sorted and pairwise disjoint (what a tokenizer produces): each location ends where or before the next starts -/
+def disjointLocs : List TermLocation → Bool
+  | [] => true
+  | [_] => true
+  | a :: b :: rest => a.stop ≤ b.start && disjointLocs (b :: rest)
 
 end Bluge.Highlight
